@@ -5,7 +5,8 @@
 //! stdin (sub-command `run`), one case per line:
 //!   (Vec <variant> [id ...] <extra-capacity> <offset> <fail>)
 //!   (Box <variant> <id> <offset> <fail>)
-//!   <variant> ::= Same | Same4 | DiffSmall | DiffBig | DiffAlign | Zst | Fold
+//!   <variant> ::= Same | Same4 | DiffSmall | DiffBig | DiffAlign | DiffAlignDown | Zst | Fold
+//!   (DiffAlign: same size, align(T) < align(U); DiffAlignDown: same size, align(T) > align(U))
 //!   (Fold: the functions are reached through the real `TypeFoldable::try_fold_with` impls of `Vec<T>` /
 //!   `Box<T>` in boring_impls.rs, with an element type whose fold calls back into a scripted folder)
 //!   <fail>    ::= NoFail | (FailAt <call-index> Err) | (FailAt <call-index> Panic)
@@ -213,6 +214,10 @@ elem!(U8, K_DROP_U, { id: u32, tag: u32 },
 elem!(U8A, K_DROP_U, { v: u64 },
       |id| U8A { v: ((TAG_U as u64) << 32) | (id & 0xFFFF_FFFF) },
       |s| if (s.v >> 32) as u32 == TAG_U { Some(s.v & 0xFFFF_FFFF) } else { None });
+// 16 bytes, align 4 (same size as T16, LOWER alignment: storage of T16s is suitably aligned for it,
+// but must still not be reused, because it would be released with another layout)
+elem!(U16A4, K_DROP_U, { id: u32, tag: u32, pad: [u32; 2] },
+      |id| U16A4 { id: id as u32, tag: TAG_U, pad: [0; 2] }, |s| if s.tag == TAG_U { Some(s.id as u64) } else { None });
 // 32 bytes, align 8
 elem!(U32B, K_DROP_U, { id: u64, tag: u64, pad: [u64; 2] },
       |id| U32B { id, tag: TAG_U as u64, pad: [0; 2] }, |s| if s.tag == TAG_U as u64 { Some(s.id) } else { None });
@@ -517,6 +522,7 @@ fn run_case(c: &Sexp) -> Result<Sexp, String> {
                 "DiffSmall" => drive_vec::<T16, U8>(&ids, extra, off, fail),
                 "DiffBig" => drive_vec::<T16, U32B>(&ids, extra, off, fail),
                 "DiffAlign" => drive_vec::<T8, U8A>(&ids, extra, off, fail),
+                "DiffAlignDown" => drive_vec::<T16, U16A4>(&ids, extra, off, fail),
                 "Zst" => drive_vec::<TZ, UZ>(&ids, extra, off, fail),
                 "Fold" => drive_vec_fold(&ids, extra, off, fail),
                 v => return Err(format!("unknown variant {}", v)),
@@ -534,6 +540,7 @@ fn run_case(c: &Sexp) -> Result<Sexp, String> {
                 "DiffSmall" => drive_box::<T16, U8>(id, off, fail),
                 "DiffBig" => drive_box::<T16, U32B>(id, off, fail),
                 "DiffAlign" => drive_box::<T8, U8A>(id, off, fail),
+                "DiffAlignDown" => drive_box::<T16, U16A4>(id, off, fail),
                 "Zst" => drive_box::<TZ, UZ>(id, off, fail),
                 "Fold" => drive_box_fold(id, off, fail),
                 v => return Err(format!("unknown variant {}", v)),
@@ -553,7 +560,7 @@ fn main() {
             fn l<T>() -> Sexp {
                 Sexp::list(vec![Sexp::num(std::mem::size_of::<T>() as u64), Sexp::num(std::mem::align_of::<T>() as u64)])
             }
-            println!("{}", Sexp::app("Layouts", vec![l::<T16>(), l::<U16>(), l::<T8>(), l::<U8>(), l::<U8A>(), l::<U32B>(), l::<TZ>(), l::<UZ>()]));
+            println!("{}", Sexp::app("Layouts", vec![l::<T16>(), l::<U16>(), l::<T8>(), l::<U8>(), l::<U8A>(), l::<U32B>(), l::<TZ>(), l::<UZ>(), l::<U16A4>()]));
         }
         _ => {
             eprintln!("usage: mem run|layouts");
